@@ -66,6 +66,30 @@ def brierScoreTest (rq : List Rat) (ra : List α) (dims : List Nat) (cnt : List 
     let obs := brier dims (ra.zip cnt)
     some { obs := obs, sims := sims, q := quantileA sims obs, arrays := arrs }
 
+/-- the DEFAULT random path (`random_numbers=None`, with or without `seed`): every simulation runs the rejection loop of
+    `_simulate_catalog` (binomial_evaluations.py:109-117) on the stream of the global generator, one simulation after the
+    other (`Sampler.testBinaryStream`); each simulated catalog is scored on its own. `stream` is the sequence
+    `numpy.random.uniform(0,1)` yields after `numpy.random.seed(seed)` (or from the ambient state); `none` = exception or
+    the supplied stream ran out. -/
+def binaryLikelihoodTestStream (rq : List Rat) (ra : List α) (cnt : List Nat) (nsim : Nat) (stream : List Rat) :
+    Option (TestOut α) :=
+  match Sampler.testBinaryStream (Sampler.weightsMasked rq) (nActive cnt) nsim stream with
+  | none => none
+  | some arrs =>
+    let sims := arrs.map (fun a => binaryLL (ra.zip a))
+    let obs := binaryLL (ra.zip cnt)
+    some { obs := obs, sims := sims, q := quantileA sims obs, arrays := arrs }
+
+/-- the same for `_brier_score_test` (brier_evaluations.py:51-60) -/
+def brierScoreTestStream (rq : List Rat) (ra : List α) (dims : List Nat) (cnt : List Nat) (nsim : Nat)
+    (stream : List Rat) : Option (TestOut α) :=
+  match Sampler.testBinaryStream (Sampler.weightsMasked rq) (nActive cnt) nsim stream with
+  | none => none
+  | some arrs =>
+    let sims := arrs.map (fun a => brier [(Sampler.weightsMasked rq).length] (ra.zip a))
+    let obs := brier dims (ra.zip cnt)
+    some { obs := obs, sims := sims, q := quantileA sims obs, arrays := arrs }
+
 /-- `binary_spatial_test`: `_binary_likelihood_test(forecast.spatial_counts(), catalog.spatial_counts())`.
     `mq`/`ma` are the spatial rates as `spatial_counts()` returns them (a float sum over the magnitude axis whose
     association order depends on the memory layout: taken as given, the theorems hold for any); the observed counts
